@@ -174,6 +174,16 @@ def run_sizes(rep, tier, seed):
     cases = list(dict.fromkeys(size_cases(rng, tier)))
     impl, _ = pv.run_parallel([exe], cases, shard=2, env={"PV_CASE_TIMEOUT": "30"})
     model, _ = pv.run_parallel([drv, "timeout"], cases)
+    # the segments of a case must reach the server as separate reads (120 ms apart): on a heavily loaded machine two of them can
+    # still be read together, which changes what is asked; a case that disagrees is run again, alone, and counts only if it
+    # disagrees every time
+    again = [k for k, (i, m) in enumerate(zip(impl, model)) if i != m]
+    for k in again:
+        for _try in range(2):
+            r, _ = pv.run_parallel([exe], [cases[k]], shard=1, env={"PV_CASE_TIMEOUT": "30"})
+            if r[0] == model[k]:
+                impl[k] = r[0]
+                break
     for c, i, m in zip(cases, impl, model):
         t = c.split()
         limit = int(t[1]); segs = [pv.unhex(x) for x in t[2].split(",")]
